@@ -1873,10 +1873,11 @@ func (schema *Schema) visitJSONArray(settings *schemaValidationSettings, value [
 	}
 
 	// "uniqueItems"
-	if sliceUniqueItemsChecker == nil {
-		sliceUniqueItemsChecker = isSliceOfUniqueItems
+	uniqueItemsChecker := sliceUniqueItemsChecker
+	if uniqueItemsChecker == nil {
+		uniqueItemsChecker = isSliceOfUniqueItems
 	}
-	if v := schema.UniqueItems; v && !sliceUniqueItemsChecker(value) {
+	if v := schema.UniqueItems; v && !uniqueItemsChecker(value) {
 		if settings.failfast {
 			return errSchema
 		}
